@@ -104,6 +104,19 @@ func backupTrace(en *Env, cfg h.Cfg, merges bool) int {
 	}
 	backups := 0
 	ops := 30
+	kept := "" // the directory of the latest backup, kept to be backed up into again
+	reused := 0
+	keep := func(d string) {
+		if kept != "" && kept != d {
+			en.Drop(kept)
+		}
+		kept = d
+	}
+	defer func() {
+		if kept != "" {
+			en.Drop(kept)
+		}
+	}()
 	for i := 0; i < ops && !e.Dead; i++ {
 		k := 1 + r.Intn(nkeys)
 		switch c := r.Intn(100); {
@@ -131,6 +144,13 @@ func backupTrace(en *Env, cfg h.Cfg, merges bool) int {
 			}
 		default:
 			bdir := en.FreshDir()
+			if kept != "" && r.Intn(2) == 0 {
+				// the directory of an earlier backup of this database is used again (its files were written by that
+				// backup, and the source may hold fewer or shorter files by now)
+				en.Drop(bdir)
+				bdir = kept
+				reused++
+			}
 			if cfg.IO == "mmap" && merges && backups >= 3 {
 				e.Put(k, val())
 				break
@@ -150,19 +170,45 @@ func backupTrace(en *Env, cfg h.Cfg, merges bool) int {
 				e.Put(1+r.Intn(nkeys), id2)
 				// the copy must hold the state at the time of the backup: undo is not possible, so
 				// dump the copy against the model *as of the backup* -> log the copy first in the other half
-				en.Drop(bdir)
+				keep(bdir)
 			} else {
 				c2 := cfg
 				if r.Intn(2) == 0 {
 					c2.IO = h.IOTypes[r.Intn(2)]
 				}
 				h.WithoutCapture(func() { dumpCopy(e, bdir, c2) })
-				en.Drop(bdir)
+				keep(bdir)
 				id2, _ := vs.New(h.BlockSize/2 + r.Intn(h.BlockSize))
 				e.Put(1+r.Intn(nkeys), id2)
 			}
 		}
 		e.Dump()
+	}
+	// the same backup directory before and after the source shrank: backup, overwrite every key, delete one, Merge,
+	// the adopting restart (the source now holds fewer and shorter files), backup into the same directory again
+	if !e.Dead && e.DB != nil && merges && cfg.IO == "std" {
+		b1 := en.FreshDir()
+		for round := 0; round < 2 && !e.Dead; round++ {
+			name := h.Guard(h.CallTimeout, func() error { return e.DB.Backup(b1) })
+			e.T.Emit(h.Ev{"ev": "op", "op": "Backup", "k": 0, "v": 0, "n": 0, "a": 0, "res": 0, "err": name})
+			backups++
+			if name != "ok" {
+				break
+			}
+			h.WithoutCapture(func() { dumpCopy(e, b1, cfg) })
+			if round == 0 {
+				for k := 1; k <= nkeys && !e.Dead; k++ {
+					id, _ := vs.New(1 + r.Intn(40))
+					e.Put(k, id)
+				}
+				e.Delete(1 + r.Intn(nkeys))
+				if e.Merge() != "ok" || e.Dead || e.Close() != "ok" || e.Open(cfg) != "ok" {
+					break
+				}
+				e.Dump()
+			}
+		}
+		en.Drop(b1)
 	}
 	// several backups requested at the same instant (no writer is active): each copy must open to the model
 	if !e.Dead && e.DB != nil && !(cfg.IO == "mmap" && merges) {
